@@ -13,14 +13,18 @@ structure Sess where
   stodo  : List Spec.Key := []
   slast  : Option Spec.Key := none
   mem    : Mem := {}
+  sparse : Bool := false
+  quiet  : Bool := false
 
 def fmtSet (l : List Spec.Key) : String := fmtList (sortNat (l.map HT.encKey))
 
 def obsM (s : Sess) : String :=
+  if s.quiet then "" else
   match s.model with
   | none => "size=- elems=[]"
   | some t => s!"size={t.size} elems={fmtSet t.abs}"
 def obsS (s : Sess) : String :=
+  if s.quiet then "" else
   match s.spec with
   | none => "size=- elems=[]"
   | some l => s!"size={l.length} elems={fmtSet l}"
@@ -40,13 +44,16 @@ def rmout (noout : Bool) (st : Stat) (out : Option Nat) : String :=
 
 def step (s : Sess) (c : Cmd) : Sess × String × String :=
   let m := s.mem.begin c.sched
+  let isNew := c.op == "new" || c.op == "new_default"
+  let sparse := if isNew then c.str "obs" == some "sparse" else s.sparse
+  let s := { s with sparse := sparse, quiet := sparse && c.op != "observe" }
   match c.op with
   | "new" | "new_default" =>
     let cfg := if c.op == "new" then mkCfg c else defaultCfg
     let cap := if c.op == "new" then c.nat "cap" 16 else Gen.HASHTABLE_DEFAULT_CAPACITY
     let (st, t, m) := HashSet.new cfg cap (if c.op == "new" then .conf else .libc) m
     let (sst, sp) := if c.fired > 0 then (Stat.errAlloc, none) else (Stat.ok, some [])
-    lines { cfg := cfg, model := t, spec := sp, mem := m } (fmtStat sst) (fmtStat st)
+    lines { cfg := cfg, model := t, spec := sp, mem := m, sparse := s.sparse, quiet := s.quiet } (fmtStat sst) (fmtStat st)
   | _ =>
   match s.model, s.spec with
   | some t, some sp =>
@@ -103,7 +110,8 @@ def step (s : Sess) (c : Cmd) : Sess × String × String :=
         lines { s with model := some t', spec := some sp', iter := some it', slast := last, mem := m } (fmtStat sst) (fmtStat st) (rmout noout st out)
       | none => lines { s with mem := m } "st=- noiter" "st=- noiter"
     | "destroy" =>
-      lines { cfg := s.cfg, mem := t.destroy m } "st=-" "st=-"
+      lines { cfg := s.cfg, mem := t.destroy m, sparse := s.sparse, quiet := s.quiet } "st=-" "st=-"
+    | "observe" => lines { s with mem := m } "st=-" "st=-"
     | _ => lines { s with mem := m } "st=- badop" "st=- badop"
   | _, _ => lines { s with mem := m } "st=- nosession" "st=- nosession"
 
